@@ -71,6 +71,17 @@ pub fn run(ctx: &mut Ctx) {
             if !lin && sparse {
                 kinds.push("quadobj+sparsecone".into());
             }
+            // problems that take the KKT-based (symmetric) initialisation, and those among them that mix
+            // equality rows with proper cones
+            let symmetric = !pl.problem.cones.iter().any(|c| matches!(c, ConeT::ExponentialConeT() | ConeT::PowerConeT(_) | ConeT::GenPowerConeT(_, _)));
+            let zero = pl.problem.cones.iter().any(|c| matches!(c, ConeT::ZeroConeT(k) if *k > 0));
+            let proper = pl.problem.cones.iter().any(|c| !matches!(c, ConeT::ZeroConeT(_)) && vkit::cones::cone_dim(c) > 0);
+            if symmetric {
+                kinds.push("symmetric_only".into());
+            }
+            if symmetric && zero && proper {
+                kinds.push("symmetric_only+equalities".into());
+            }
         }
         let it = res.iterations as u64;
         if res.status == SolverStatus::Solved {
